@@ -338,6 +338,28 @@ fn normalise_entry(ev: &[Ev], accepted: bool) -> Vec<Ev> {
     out
 }
 
+/// NMI acceptance: the delay T-states the implementation spends before the first stack write must carry
+/// the address that is pushed (the interrupted PC; behind the HALT when the CPU was halted). The
+/// reference's own entry cycles are address-less, so the expected address is taken from its pushes.
+fn nmi_ack_address(ev_impl: &[Ev], ev_ref: &[Ev], accepted: zxref::z80::Accepted) -> Option<String> {
+    if accepted != zxref::z80::Accepted::Nmi {
+        return None;
+    }
+    let mut pushed = ev_ref.iter().filter_map(|e| if let Ev::Wr { data, .. } = e { Some(*data) } else { None });
+    let (hi, lo) = (pushed.next()?, pushed.next()?);
+    let ret = (hi as u16) << 8 | lo as u16;
+    for e in ev_impl {
+        match e {
+            Ev::Wr { .. } => break,
+            Ev::Dly { addr } if *addr != ret => {
+                return Some(format!("NMI acknowledge T-states carry address {:04X}, the interrupted PC (pushed next) is {:04X}: impl [{}]", addr, ret, show_evs(ev_impl)));
+            }
+            _ => {}
+        }
+    }
+    None
+}
+
 pub struct WorldA {
     pub cpu: Z80,
     pub bus: SimBus,
@@ -471,6 +493,10 @@ impl WorldA {
         } else if vi != vr {
             kind = DivKind::Bus;
             what = Some(format!("bus value history differs: impl [{}] ref [{}]", show_evs(&ei), show_evs(&er)));
+        } else if let Some(w) = nmi_ack_address(&self.bus.ev, &self.rbus.ev, info.accepted) {
+            // the five acknowledge T-states of an NMI are an opcode-fetch-like cycle at the return address
+            kind = DivKind::Bus;
+            what = Some(w);
         } else if self.bus.out.samples != self.rbus.out.samples {
             kind = DivKind::Sampling;
             what = Some(format!(
